@@ -194,7 +194,7 @@ def run_rules(ctx, res):
                     want_owner = "file.terminal_enum"
                 else:
                     want_owner = re.match(r"^expr:&?(\w+)\.name\.name$", nd).group(1)
-                ok = m is not None and m.group(1) == want_owner
+                ok = m is not None and re.sub(r"^self\.", "", m.group(1)) == want_owner  # (`file` = `self.file`)
                 res.inst(PLACE, key, t.where, True, "attributes from `%s`, name from `%s`" % (atxt, nd))
                 if not ok:
                     res.violate(PLACE, key, t.where, "the attributes printed before `pub %s {%s}` come from `%s`; they must be the printer applied to the attribute list of the same declaration (`%s.attributes`)" % (tok.s, first, atxt, want_owner))
